@@ -289,12 +289,21 @@ func generate(r *vh.Rand, steps int) (string, []string) {
 				g.do(fmt.Sprintf("LT %d %d", id, v[r.Intn(len(v))]))
 			}
 		case x < 96:
-			switch r.Intn(3) {
+			switch r.Intn(4) {
 			case 0:
 				g.do(fmt.Sprintf("RESTART %d", id))
 			case 1:
 				// snapshot at the applied index and compact
 				g.snapshot(id, uint64(r.Intn(3)))
+			case 2:
+				// log query: a range around the committed part of the log (low < high as
+				// NodeHost.QueryRaftLog guarantees)
+				st := raftsim.Inspect(n)
+				lo := uint64(r.Intn(int(st.LastIndex) + 3))
+				g.do(fmt.Sprintf("LQ %d %d %d", id, lo, lo+1+uint64(r.Intn(6))))
+				if !g.Stopped {
+					g.update(id)
+				}
 			default:
 				g.do(fmt.Sprintf("UN %d %d", id, 1+r.Intn(5)))
 			}
